@@ -260,4 +260,36 @@ example : cutAtBdat 100 ("AUTH PLAIN\r\nBDAT 5\r\nNOOP xxxxxxxxxxxx\r\n".b) = "A
 example : cutAtBdat 100 ("NOOP\r\nBDAT 5\r\nNOOP xxxxxxxxxxxx\r\n".b) = "NOOP\r\nBDAT 5\r\nxxxxxxxxxxxx\r\n".b := by
   decide +kernel
 
+theorem lfEnd_go_bound (s : Bytes) (k i : Nat) (h : lfEnd.go s k = some i) : i ≤ k + s.length := by
+  induction s generalizing k with
+  | nil => simp [lfEnd.go] at h
+  | cons c t ih =>
+    unfold lfEnd.go at h
+    by_cases hc : (c == LF) = true
+    · simp only [hc, if_true, Option.some.injEq] at h
+      simp only [List.length_cons]; omega
+    · simp only [hc, Bool.false_eq_true, if_false] at h
+      have := ih (k + 1) h
+      simp only [List.length_cons]; omega
+
+theorem lfEnd_le_length (s : Bytes) (i : Nat) (h : lfEnd s = some i) : i ≤ s.length := by
+  have := lfEnd_go_bound s 0 i h
+  omega
+
+/-- **C19_next_line_always_counted.**  Whatever is buffered when the limit comes back, the command line that will be read next —
+    the buffered octets up to the first line feed — is counted in full, first: no look-ahead rule can hide the next line from the
+    limiter.  (With `C19_resume_counts_pending`: an over-long next line always trips.) -/
+theorem C19_next_line_always_counted (fuel : Nat) (rest : Bytes) (i : Nat) (h : lfEnd rest = some i) :
+    (cutAtBdat (fuel + 1) rest).take i = rest.take i := by
+  have hlen : (rest.take i).length = i := by
+    rw [List.length_take]; have := lfEnd_le_length rest i h; omega
+  have hself : (rest.take i).take i = rest.take i := by rw [List.take_take]; simp
+  conv => lhs; unfold cutAtBdat
+  simp only [h]
+  repeat' split
+  all_goals first
+    | rfl
+    | exact hself
+    | exact List.take_left' hlen
+
 end SmtpV.Props.C19
